@@ -318,6 +318,71 @@ func runC10(p *core.Program, r *core.Report) {
 	}
 	a5Check(r, "R6", f)
 	c14R3forFunc(p, r, f)
+	c10R7(p, r, f)
+}
+
+// c10R7: empty-result discipline. ValueLit answers "" for a sub-value that has
+// nothing to print (an all-zero struct in a struct field). A caller that uses
+// the result unconditionally prints a hole (`P:&()`, `"a":,`). Every recursive
+// call must either test the result against "" or switch the sub-value mode off.
+func c10R7(p *core.Program, r *core.Report, f *core.Func) {
+	const rule = "R7"
+	info := f.Info()
+	g := graph(f)
+	returnsEmpty := false
+	ast.Inspect(f.Body, func(n ast.Node) bool {
+		if ret, ok := n.(*ast.ReturnStmt); ok && len(ret.Results) == 1 && constStrIs(info, ret.Results[0], "") {
+			returnsEmpty = true
+		}
+		return true
+	})
+	if !returnsEmpty {
+		r.OK(rule, f, "the printer never answers the empty string", f.Node().Pos(), "no `return \"\"`")
+		return
+	}
+	r.Floor(rule, 4)
+	subValueOff := func(c *ast.CallExpr) bool {
+		for _, a := range c.Args[1:] {
+			found := false
+			ast.Inspect(a, func(n ast.Node) bool {
+				if sc, ok := n.(*ast.CallExpr); ok && core.CalleeName(info, sc) == core.G("pkg/gengo/internal.SubValue") && len(sc.Args) == 1 {
+					if tv := info.Types[sc.Args[0]]; tv.Value != nil && tv.Value.String() == "false" {
+						found = true
+					}
+				}
+				return true
+			})
+			if found {
+				return true
+			}
+		}
+		return false
+	}
+	for _, c := range core.Calls(f.Body, true) {
+		if core.CalleeFunc(info, c) != f.Obj() {
+			continue
+		}
+		construct := "result of the recursive call " + core.ExprStr(c) + " is never an unnoticed empty string"
+		if subValueOff(c) {
+			r.OK(rule, f, construct, c.Pos(), "the call switches the sub-value mode off (SubValue(false)): the callee cannot answer \"\"")
+			continue
+		}
+		// result assigned to a variable that is compared with ""
+		tested := false
+		if as, ok := g.PointOf(c).Node().(*ast.AssignStmt); ok && len(as.Rhs) == 1 && as.Rhs[0] == ast.Expr(c) {
+			if v := core.VarOf(info, as.Lhs[0]); v != nil {
+				for _, br := range g.Branches() {
+					if b, ok := ast.Unparen(br.Cond).(*ast.BinaryExpr); ok && (b.Op == token.EQL || b.Op == token.NEQ) {
+						if (core.VarOf(info, b.X) == v && constStrIs(info, b.Y, "")) || (core.VarOf(info, b.Y) == v && constStrIs(info, b.X, "")) {
+							tested = true
+						}
+					}
+				}
+			}
+		}
+		r.Check(tested, rule, f, construct, c.Pos(), "the result is compared with \"\" before it is used",
+			"the callee can answer \"\" (empty sub-struct under SubValue(true), which is inherited through the option list) but this call neither tests the result nor passes SubValue(false): a pointer to / map entry of a zero-valued struct inside a struct field is rendered as `&()` / `\"k\":,`, which does not compile (the struct arm tests the same result - contradiction)")
+	}
 }
 
 // ampKinds determines the element kinds for which the address-of format call
